@@ -130,7 +130,7 @@ DerEnc(env, T, v, impl) ==
              encs == CompEncs(env, T, v)
              \* canonical order: by the tag each present component actually carries
              tagOf(i) == IF encs[i] = <<>> THEN Tag("P", 2147483647)
-                         ELSE MinTag(OuterTags(env, cs[i].t))
+                         ELSE ValueTag(env, cs[i].t, v[i][1])
              idx == SortedIdx(Len(cs), LAMBDA i, j : TagLess(tagOf(i), tagOf(j)))
          IN TLV(TagOr(impl, T), TRUE, ConcatAll([p \in DOMAIN cs |-> encs[idx[p]]]))
     [] T.k = "SEQOF" -> TLV(TagOr(impl, T), TRUE,
